@@ -14,6 +14,7 @@ mod c06wrap;
 mod c07;
 mod c08;
 mod c15;
+mod c19;
 mod c20;
 mod c09;
 mod c10;
@@ -78,6 +79,7 @@ fn main() {
                 "C07" => c07::trace(t, idx, &choices, script, 20_000),
                 "C15" => c15::trace(t, idx, &choices, script, 20_000),
                 "C20" => c20::trace(t, idx, &choices, script, 60_000),
+                "C19" => c19::trace(t, idx, &choices, script, 20_000),
                 "C03" | "C04" | "C11" | "C12" | "C16" | "C17" => c03::trace(&prop, t, idx, &choices, script, 20_000),
                 _ => {
                     eprintln!("no trace support for {prop}");
@@ -109,6 +111,7 @@ fn main() {
                     "C07" => c07::trace(t, idx, &choices, None, max_polls),
                     "C15" => c15::trace(t, idx, &choices, None, max_polls),
                     "C20" => c20::trace(t, idx, &choices, None, max_polls),
+                    "C19" => c19::trace(t, idx, &choices, None, max_polls),
                     "C03" | "C04" | "C11" | "C12" | "C16" | "C17" => c03::trace(&prop, t, idx, &choices, None, max_polls),
                     _ => {
                         eprintln!("no simnet replay for {prop}");
@@ -157,6 +160,7 @@ fn main() {
                 Some("C07") => c07::run(t),
                 Some("C15") => c15::run(t),
                 Some("C20") => c20::run(t),
+                Some("C19") => c19::run(t),
                 Some("C08") => c08::run(t),
                 Some("C11") => c11::run(t),
                 Some("C17") => c17::run(t),
